@@ -36,6 +36,16 @@ func enc(v types.EncoderTo) []byte {
 	return buf.Bytes()
 }
 
+func safelyDo(f func()) (ok bool) {
+	defer func() {
+		if recover() != nil {
+			ok = false
+		}
+	}()
+	f()
+	return true
+}
+
 func errStr(err error) string {
 	if err == nil {
 		return "<accepted>"
@@ -282,6 +292,44 @@ func provenance(b *harness.B, c *chaingen.Chain, s sample) {
 			b.Count("sub_second_timestamp_comparisons", 1)
 			if diff := a.equal(d); diff != "" {
 				b.Violate("C09/provenance/sub-second-timestamp-vs-decoded-copy", "a block whose in-memory timestamp has a sub-second part and its decode(encode()) copy (same ID, same bytes) give different results: "+diff, wit)
+			}
+		}
+	}
+	// the multiproof wire form of a v2 block drops every proof hash that can be recomputed from another element of
+	// the block and regenerates it when decoding: a block whose in-memory proofs differ only in such a hash has the
+	// same bytes and the same ID, and must get the same verdict from memory as from its own encoding
+	if s.valid && s.b.V2 != nil && len(s.b.Transactions) == 0 {
+		var origEnc []byte
+		if safelyDo(func() { origEnc = enc(types.V2Block(s.b)) }) {
+			tries := 0
+		search:
+			for ti := range s.b.V2.Transactions {
+				for ii := range s.b.V2.Transactions[ti].SiacoinInputs {
+					for pi := range s.b.V2.Transactions[ti].SiacoinInputs[ii].Parent.StateElement.MerkleProof {
+						if tries++; tries > 24 {
+							break search
+						}
+						m := chaingen.CloneBlock(s.b)
+						m.V2.Transactions[ti].SiacoinInputs[ii].Parent.StateElement.MerkleProof[pi][7] ^= 0x20
+						var mEnc []byte
+						if !safelyDo(func() { mEnc = enc(types.V2Block(m)) }) || !bytes.Equal(mEnc, origEnc) {
+							continue // the hash is part of the encoding: a different block on the wire
+						}
+						var dec types.Block
+						d := types.NewBufDecoder(mEnc)
+						(*types.V2Block)(&dec).DecodeFrom(d)
+						if d.Err() != nil {
+							continue
+						}
+						a, g := evaluate(s.cs, m, s.bs, c), evaluate(s.cs, dec, s.bs, c)
+						b.Eval(1)
+						b.Count("recomputable_proof_hash_comparisons", 1)
+						if diff := a.equal(g); diff != "" {
+							b.Violate("C09/provenance/multiproof-decoded/in-memory-proof-hash-that-the-encoding-drops", "a block whose in-memory Merkle proofs differ from the genuine ones in a hash the multiproof encoder does not write (same bytes, same ID) and its decode(encode()) copy give different results: "+diff, wit)
+						}
+						break search
+					}
+				}
 			}
 		}
 	}
